@@ -98,7 +98,9 @@ Kx1b(e) == Stay /\ tlast' = Verdict(e, Kx1bOk(e, IF JCanon(e.ra_in) THEN Den1(e.
 \* 2a (initiator A): has rA, RA; receives RB.  If e.peer_r is given (honest RB = [rB]QA) then g2 = g^rB
 G2Of(e, g, pt) == IF Len(e.peer_r) = 32 /\ pt = G1Mul(e.peer_r, QB(PpubE(BFromBE(e.ke)), e.ida, 2)) THEN F12Pow(g, e.peer_r) ELSE Pairing(pt, ExtractEnc(BFromBE(e.ke), e.ida, 2)[2])
 Kx2aExp(e, g, ra, pt) == KxA2(e.ida, e.idb, ra, pt, g, G2Of(e, g, pt), BFromBE(e.r), e.klen)
-Kx2aOk(e, pt) == IF pt = Inf /\ JCanon(e.rb_in) THEN e.outcome \in {"ok", "err"}
+\* (an initiator whose own R_A is not a finite curve point -- already reported at step 1a -- is not judged again: there is no key to compare with)
+Kx2aOk(e, pt) == IF ~JCanon(e.ra) \/ Den1(e.ra) = Inf THEN TRUE
+                 ELSE IF pt = Inf /\ JCanon(e.rb_in) THEN e.outcome \in {"ok", "err"}
                  ELSE IF ~JCanon(e.rb_in) \/ ~G1OnCurve(pt) THEN e.outcome = "err"
                  ELSE e.outcome = "ok" /\ e.sk = Kx2aExp(e, GPow(BFromBE(e.ke)), Den1(e.ra), pt)
 Kx2a(e) == Stay /\ tlast' = Verdict(e, Kx2aOk(e, IF JCanon(e.rb_in) THEN Den1(e.rb_in) ELSE Inf), "kx.2a." \o e.tamper,
